@@ -420,6 +420,10 @@ def strict_allowed(cfg, cmd, dev):
     if drv == 'rcs380':
         if k == 'comm' and cmd in ('InCommRF', 'TgCommRF'):
             v = dev[1]
+            if mode == 'listen' and v & 0x400:
+                # the chipset says the field is gone: that is field loss,
+                # whatever else it reports in the same status word
+                return {B}
             allowed = set()
             if v & 0x80:
                 allowed.add(T)
@@ -444,7 +448,9 @@ def strict_allowed(cfg, cmd, dev):
             if c == 0:
                 return {D, X}
             if c == 1:
-                return {T, X}
+                # InDataExchange: bits 7:6 of the status byte are the
+                # NAD/MI flags, the error code is in bits 5:0
+                return {T} if cmd == 'InDataExchange' else {T, X}
             return {X, B} if c in FIELD_CODES else {X}
         if h == 0:
             if c in (0x29, 0x31):
